@@ -69,7 +69,10 @@ class C05System(BuilderSystem):
             ["set_distance_mode", ["relative"]], ["tool_on", ["clockwise", 50]], ["coolant_on", ["flood"]],
             ["set_feed_rate", [60]], ["set_hotend_temperature", [50]], ["move", [], {"x": 1, "E": 1.5, "S": 30}],
             ["tool_change", ["manual", 2]], ["power_on", ["dynamic", 10]],
-        ]
+        ] + ([
+            # bounds tightened on a live builder: values that were legal (and may be the tracked ones) now fail
+            ["set_bounds", ["feed-rate", 55, 58]], ["set_bounds", ["tool-power", 35, 40]], ["set_bounds", ["axes", [0, 0, -1], [1.5, 1.5, 1]]],
+        ] if self.bounded else [])
 
     def failing_ops(self):
         ops = []
